@@ -46,6 +46,18 @@ theorem packbits8_ops (g : G8) (fdata data : Bytes) (x y : Nat) :
 theorem bitd_alloc_bounded (c : Call) : allocBytes c ≤ 7 * (declaredRows c * (c.width + 1)) :=
   allocBytes_bound c
 
+/-- the same on the integer entry point: the canvas a request declares includes the amount of a negative left offset
+    (`Request.normalise`), as it includes the amount of a negative top offset (`declaredRows`) -/
+theorem bitd_steps_linear_request (r : Request) :
+    (bitd2bmpStepsI r).total ≤ 1162 * r.fdata.length + 2 * (declaredRows r.normalise * (r.normalise.width + 1)) := by
+  have := bitd2bmpSteps_bound r.normalise
+  have e : r.normalise.fdata = r.fdata := by unfold Request.normalise; split <;> rfl
+  rw [e] at this
+  exact this
+
+theorem bitd_alloc_bounded_request (r : Request) : allocBytesI r ≤ 7 * (declaredRows r.normalise * (r.normalise.width + 1)) :=
+  allocBytes_bound r.normalise
+
 /-- a 128-fold run on a 1×1 canvas: the paint loop makes three rounds (the pixel, the alignment byte, the breaking round), not 128 -/
 example : paintRun8Steps (g8 1 0 4) 0 7 128 (zeros 4) 0 = 3 := by decide
 
